@@ -983,9 +983,11 @@ func (c *Context) Exp(d, x *Decimal) (Condition, error) {
 	k.SetFinite(1, t)
 	nc := c.WithPrecision(cp)
 	nc.Rounding = RoundHalfEven
-	if _, err := nc.Quo(&r, x, &k); err != nil {
-		return 0, fmt.Errorf("Quo: %w", err)
-	}
+	// r = x / 10^t is an exact shift of the exponent. Dividing in nc would
+	// round x to the caller's precision first, which is not enough when x has
+	// more digits than that (Exp(15) at precision 1 returned 5E+8).
+	r.Set(x)
+	r.Exponent -= t
 	var ra Decimal
 	ra.Abs(&r)
 	p := int64(cp) + int64(t) + 2
